@@ -71,21 +71,21 @@ CLAIMED = {
 EXTRA = {
   "C01": "; potentials returning python ints over part of their range (C-level integer conversions kept symbolic as trunc); the tabulation object written twice",
   "C02": "; potentials returning python ints over part of their range (C-level integer conversions kept symbolic as trunc); the tabulation object written twice",
-  "C03": "; Potential subclasses overriding energy(); the explicit cutoff argument of writeSetFL as a symbolic value; the same objects written as another target first; pair lists holding potentials for species outside the model; one callable object serving as embedding and density function on grids of different size; a write after another model's failed write",
-  "C04": "; Potential subclasses overriding energy(); the same objects written as another target first; a species with densities but no embedding entry (potable); undeclared ordered pairs (defaultdict of a zero function), alone and after a fully declared model of the same elements; one callable object in two roles; a write after another model's failed write",
-  "C05": "; Potential subclasses overriding energy(); the same objects written as another target first; pair lists holding potentials for species outside the model; one callable object in two roles (nr != nrho); a write after another model's failed write",
+  "C03": "; 8-character labels; Potential subclasses overriding energy(); the explicit cutoff argument of writeSetFL as a symbolic value; the same objects written as another target first; pair lists holding potentials for species outside the model; one callable object serving as embedding and density function on grids of different size; a write after another model's failed write",
+  "C04": "; 8-character labels; density mappings that build their entries on demand (__missing__); Potential subclasses overriding energy(); the same objects written as another target first; a species with densities but no embedding entry (potable); undeclared ordered pairs (defaultdict of a zero function), alone and after a fully declared model of the same elements; one callable object in two roles; a write after another model's failed write",
+  "C05": "; 8-character labels; Potential subclasses overriding energy(); the same objects written as another target first; pair lists holding potentials for species outside the model; one callable object in two roles (nr != nrho); a write after another model's failed write",
   "C06": "; pairs of entries evaluated alternately at the same separations (last-value caches)",
-  "C10": "; join conditions for spline windows at 3..9 Angstrom with the real LAPACK (concrete layer); lstsq by the contract of solve",
-  "C08": "; a second potential built from one of the same Multi_Range_Defn objects with another following range (n <= 3); history replay (other potentials built, differentiated and dropped)",
-  "C09": "; custom forms whose caller and callee share parameter names; two entries of one section differing only in a modifier argument's range; custom forms after an earlier model whose inner forms have other formulae",
-  "C11": "; the step written in ten float notations (concrete layer); documented defaults also after the same module-level factory served a file with symbolic grid values",
+  "C10": "; exponential splines from/to potentials that are exactly zero at the join (concrete layer); join conditions for spline windows at 3..9 Angstrom with the real LAPACK (concrete layer); lstsq by the contract of solve",
+  "C08": "; an earlier evaluation of the same object at another symbolic separation (n <= 2); permuted ranges assigned through the range_defns property as an iterator; a second potential built from one of the same Multi_Range_Defn objects with another following range (n <= 3); history replay (other potentials built, differentiated and dropped)",
+  "C09": "; wrapped formulae with end-of-line comments (concrete formatting layer); custom forms whose caller and callee share parameter names; two entries of one section differing only in a modifier argument's range; custom forms after an earlier model whose inner forms have other formulae",
+  "C11": "; every option set of the separation grid with every option set of the density grid (concrete layer); the step written in ten float notations (concrete layer); documented defaults also after the same module-level factory served a file with symbolic grid values",
   "C12": "; the same python objects handed to two writers of one family; rebuilding the model after same-shape, same-grid models with other numbers were built, written and dropped (fresh process)",
   "C13": "; two views of one parsed file tabulated (8 species lists x include/exclude each, either order, with/without the unfiltered file first) against freshly parsed hand-edited files",
   "C14": "; [Variables] among the sections; SECTION:KEY=VALUE items with ':' '=' '${S:K}' '>=' inside VALUE (5 x 5 x 12)",
   "C15": "; the same place-holder file parsed twice in one process with different values; place-holders repeated within one value (variable, variable of a variable, cross-section, diamond)",
   "C16": "; formulae with exprtk { } blocks and % operators (valid and malformed)",
   "C17": "; output to a gzip text stream (seekable() true, cannot rewind)",
-  "C18": "; plot row count on Float64 terms (blind path exploration + one QF_FP query per path writing a number of rows other than steps); numpy.isclose by contract; replay probes one ulp beyond either end of the table data",
+  "C18": "; a second object of each table form asked for deriv2 before deriv; plot row count on Float64 terms (blind path exploration + one QF_FP query per path writing a number of rows other than steps); numpy.isclose by contract; replay probes one ulp beyond either end of the table data",
   "C19": "; GULP evaluation points exactly (i*cutoff)/(nr-1) on Float64 terms (term identity or QF_FP witness); one callable object in two Excel sheets; ADP with surplus pair species and after another model's failed write; potable replays re-run in a fresh process after a same-kind model with other numbers when module-level state held proxies",
   "C20": "; replays that re-run after ordinary models were tabulated (state kept at class level); second definition arriving through `additional`/--add-item (pairs, forms, table-form section names, densities); species labels differing in case only",
 }
